@@ -29,6 +29,12 @@ def proj_route_c02(i, m):
     return [i[0], i[1], i[2], len(i[3])], [m[0], m[1], m[2], len(m[3])]
 
 
+def proj_twin(i, m):
+    # the answers under the two routers; a third field of the implementation's (concurrent clients answered as a lone
+    # one) is judged by the specification predicate
+    return i[:2], m[:2]
+
+
 def proj_perm(i, m):
     # per build the answer of Dispatch (7 fields); the 8th field of the implementation's (the same through ServeHTTP) is
     # compared across the builds by the specification predicate, not with the model
@@ -51,8 +57,9 @@ def _pick(obs_lists, fields):
 
 
 def proj_disp_c06(i, m):
-    # the ordered event log of every request (sequential, alone, concurrent)
-    return _pick(i[:3], [5]), _pick(m[:3], [5])
+    # the ordered event log of every request (sequential, alone, concurrent) and the decoded body (what was written
+    # through the response each stage was handed)
+    return _pick(i[:3], [3, 5]), _pick(m[:3], [3, 5])
 
 
 def proj_disp_c07(i, m):
@@ -113,8 +120,9 @@ PROPS = {
     ),
     'C18': dict(
         domains=[dict(name='twin', quick=24000, thorough=500000)],
+        race_domains=[dict(name='twin', quick=480, thorough=12000, args=['-force-conc'])],
         verdicts=['c18_*'],
-        project={'twin': proj_allow},
+        project={'twin': proj_twin},
         prop_files=['props/C18.v'],
         trivial_classes=('404',),
         rule='tables of the common fragment (literal roots, literal / plain-variable route segments) and requests derived from '
